@@ -108,6 +108,8 @@ def check(model: Model, tier: str):
     obs += rule_residual_unprec(model)
     from ..normguard import rule_train_init
     obs += rule_train_init(model, "solvers._amen_solve_python")
+    from ..normguard import rule_residual_gauge
+    obs += rule_residual_gauge(model, "solvers._amen_solve_python")
     obs += rule_arnoldi_seed(model)
     fs = [model.func(a) for a in ANCHORS]
     exc = {
